@@ -265,6 +265,7 @@ func C10() int {
 	}
 	d.Drive()
 	c10Recovery(rep, budget)
+	c10CrashRestartQuery(rep, budget)
 	return rep.Finish()
 }
 
@@ -274,10 +275,14 @@ func init() {
 	Registry["C10"] = C10
 	Replayers["C10"] = func(doc json.RawMessage) int {
 		var probe struct {
-			Kind string `json:"kind"`
-			Mode string `json:"mode"`
+			Kind   string `json:"kind"`
+			Mode   string `json:"mode"`
+			Points int    `json:"points"`
 		}
 		_ = json.Unmarshal(doc, &probe)
+		if probe.Points > 0 {
+			return MakeReplayer[c10QJob]("C10", "fault_enumeration", serverPool, c10QRun)(doc)
+		}
 		if probe.Mode == "" {
 			return c10ReplayRecovery(doc)
 		}
